@@ -90,11 +90,11 @@ Proof.
       inversion H; subst d; cbn. unfold hold_of; cbn. rewrite Eacb; cbn. repeat split; tuple_eq; try ring.
     + if_inv H.
   - (* Split *)
-    unfold split_factor in H.
-    bind_inv H. apply pos_div_exact in E as (-> & _ & _).
-    bind_inv H. apply gez_mul_exact in E as [-> _].
+    cbn [a_mul a_div exact bind] in H.
+    destruct (Qceqb_spec pre_ 0) as [|Hpre]; cbn [bind] in H; [discriminate|].
+    bind_as H as nsh En. apply gez_unwrap_ok in En as [-> _].
     cbn [a_sub a_add exact bind] in H. if_inv H. if_inv H.
-    inversion H; subst d; cbn. unfold hold_of; cbn. repeat split; tuple_eq.
+    inversion H; subst d; cbn. unfold hold_of; cbn. repeat split; tuple_eq. field. exact Hpre.
 Qed.
 
 Lemma sell_core_exact pre n price com rate crate c :
